@@ -318,8 +318,9 @@ def check_integral_rms(ctx, rule="R3-band-rms-is-trapezoid-of-asd-squared"):
     ok_x = okm and isinstance(x.arr, (ArrParam, Arr)) and _arr_same(x.arr, f_in)
     ya = as_arr(y.arr) if okm else None
     ok_y = ya is not None and to_x(ya.body) is not None and to_x(ya.body).eq(mk_idx("asd", [X.var(ya.axes[0][0])], "real") * mk_idx("asd", [X.var(ya.axes[0][0])], "real"))
-    (ctx.holds if ok_x and ok_y else ctx.violated)(rule, key + "[integrand]", "trapezoid of asd^2 over f, both cropped by one mask" if ok_x and ok_y else
-                                                  f"integrand / abscissa are {y!r} / {x!r}: not asd^2 over f on one common crop", where)
+    recognised = not is_opaque(y) and not is_opaque(x) and (not okm or (ya is not None and not is_opaque(ya.body) and to_x(ya.body) is not None))
+    ctx.ob(rule, key + "[integrand]", HOLDS if ok_x and ok_y else VIOLATED if recognised else UNKNOWN, "trapezoid of asd^2 over f, both cropped by one mask" if ok_x and ok_y else
+           f"integrand / abscissa are {y!r} / {x!r}: not asd^2 over f on one common crop", where)
     # inclusive band: mask = (f >= lo') & (f <= hi')
     if okm:
         M = as_arr(y.mask)
